@@ -429,6 +429,35 @@ func ruleSSALiterals(p *Prog, l *Ledger, tier string) {
 	for c := range constArms(rd, isLower) {
 		sections.add(c)
 	}
+	// the same test written as strings.EqualFold(header, "Name")
+	for _, b := range rd.Blocks {
+		for _, ins := range b.Instrs {
+			c, ok := ins.(*ssa.Call)
+			if !ok || calleeName(&c.Call) != "strings.EqualFold" {
+				continue
+			}
+			for _, a := range c.Call.Args {
+				if s, ok := constStr(a); ok {
+					sections.add(strings.ToLower(s))
+				}
+			}
+		}
+	}
+	if len(sections) == 0 {
+		l.Undecide(rule, "ReadFromSSAWithOptions", rule+"|sections-read", "", "the section names the reader recognises could not be extracted (neither a switch on strings.ToLower(…) nor strings.EqualFold tests)")
+		return
+	}
+	// reference: the spellings confirmed on the pinned tree (SSA v4 "[V4 Styles]", ASS "[V4+ Styles]", the
+	// "[V4 Styles+]" variant found in the wild, "[Events]", "[Script Info]"); losing one makes the reader skip
+	// that block of a well-formed document without any error
+	for _, want := range []string{"events", "script info", "v4 styles", "v4+ styles", "v4 styles+"} {
+		key := rule + "|section-read|" + want
+		if sections[want] {
+			l.Prove(rule, "ReadFromSSAWithOptions", key, "", "the reader recognises section ["+want+"] (case-insensitively)")
+		} else {
+			l.Fail(rule, "ReadFromSSAWithOptions", key, blockPos(p, rd.Blocks[0]), fmt.Sprintf("the reader no longer recognises the section header [%s] (it recognises %v): that block of a well-formed document is skipped silently and its styles / events are lost", want, sections.sorted()))
+		}
+	}
 	n := 0
 	for _, fn := range []*ssa.Function{wr, info} {
 		for _, b := range fn.Blocks {
